@@ -138,8 +138,22 @@ def domain(ctx, focus):
             h = [["P", 0]] * n + [["P", i] for i in range(1, 5)] + [["T", i] for i in range(1, 5)] + [["C", None]] + [["P", i] for i in range(1, 5)]
             cases.append({"texts": tx, "history": h})
             nstress += 1
+    long_fail = [" * ".join(["y"] * 30) + " *", " + ".join(["2x"] * 60) + " +", "(" * 30 + "x", "x" * 60 + ")", " / ".join(["3"] * 26) + " / )"]
+    for ft in long_fail:
+        tx = [ft, "4x + 2y^3", "x", "(x)", "2 * 3"]
+        for h in ([["P", 0]] + [["P", i] for i in range(1, 5)] + [["C", None]] + [["P", i] for i in range(1, 5)],
+                  [["T", 0], ["P", 0], ["P", 0]] + [["P", i] for i in range(1, 5)] + [["T", i] for i in range(1, 5)]):
+            cases.append({"texts": tx, "history": h, "noquery": True})
+            nstress += 1
+    # prefix-growing sessions: every prefix of a text, in order, on one parser (an editor re-parsing as the user types)
+    for base in ("4x + 2y^3 - 7 * (x + sgn(x - 9)) / 12.5 = 3sgn(y) + 2sgnx", "12.5 + 3.75x^2 - sgn(12 - x) * 44sgn(x)", "2 * 3 + sgn(4) - 2sg + 2sgn(x) - 1.25.3"):
+        tx = [base[:k] for k in range(1, len(base) + 1)]
+        for ops in (["T"], ["P"], ["T", "P"]):
+            h = [[o, k] for k in range(len(tx)) for o in ops]
+            cases.append({"texts": tx, "history": h, "noquery": True})
+            nstress += 1
     # cache-capacity probes: tokenize(s), N other distinct successful parses, then parse(s) / tokenize(s) again
-    caps = [128, 256, 512, 1024] if ctx.quick else [16, 32, 64, 100, 128, 200, 256, 500, 512, 1000, 1024, 2048]
+    caps = [128, 256, 512, 1024, 2048] if ctx.quick else [16, 32, 64, 100, 128, 200, 256, 500, 512, 1000, 1024, 2048, 4096]
     for cap in caps:
         for n in (cap - 1, cap, cap + 1):
             tx = ["4x + 2y^3"] + ["x + %d" % k for k in range(n)]
@@ -147,7 +161,11 @@ def domain(ctx, focus):
             cases.append({"texts": tx, "history": h, "noquery": True})
             h2 = [["P", 0]] + [["T", k + 1] for k in range(n)] + [["T", 0], ["P", 0], ["T", 1], ["P", n]]
             cases.append({"texts": tx, "history": h2, "noquery": True})
-            nstress += 2
+            # a failed parse first: its text is in the token cache but never reaches the parse cache
+            tx3 = ["4 +"] + tx[1:]
+            h3 = [["P", 0]] + [["P", k + 1] for k in range(n)] + [["P", 1], ["P", 0], ["T", 0], ["P", n]]
+            cases.append({"texts": tx3, "history": h3, "noquery": True})
+            nstress += 3
     rule = ("%d stress histories (130 repeated failing parses of deeply parenthesised texts; cache-capacity probes around 128..1024 distinct texts); " % nstress) + ("all %d histories of length <= %d over %d operations (parse / tokenize of %d texts incl. one failing text per exception class, "
             "clear_cache, %s) each followed by parse, tokenize and parse-again of every text; + seeded random histories up to length 14 over %d texts"
             % (exhaustive, L, len(ops), len(texts), "client edits of handed-out lists" if focus != "sticky" else "no edits", len(TEXTS)))
